@@ -33,7 +33,8 @@ func (c hashComparable) Hash(i uint32, seed uint64) uint64 { return c.hashes[i] 
 
 // big: one GroupBy over 2k rows with k > 32768 distinct keys, every key occurring once in each half, hashes spread over
 // all 64 bits: the table grows past 2^16 and 2^17 slots while holding entries, and the second half must find them again.
-//   GB <n> <k> <mul> G <g> {<len> <row…>}*      key of row i = i mod k, hash = key * mul
+//
+//	GB <n> <k> <mul> G <g> {<len> <row…>}*      key of row i = i mod k, hash = key * mul
 func grpBig(r *tx.Rng, w *tx.W) {
 	k := 33000 + r.Intn(30000)
 	n := 2 * k
